@@ -576,16 +576,17 @@ def _abstract_list(path_qs, headers):
     parts = urlsplit(path_qs)
     _need(parts.path == '/resource_providers')
     pairs = parse_qsl(parts.query, keep_blank_values=True)
-    _need(all(val != '' for _, val in pairs), 'empty value')
+    _need(all(val != '' for k, val in pairs if k != 'name'), 'empty value')
     by = {}
     for k, val in pairs:
         by.setdefault(k, []).append(val)
     _need(set(by) <= {'name', 'uuid', 'in_tree', 'member_of', 'required', 'resources'}, 'unknown parameter')
-    f = {'op': 'rp_list', 'v': v, 'name': '', 'uuid': '', 'in_tree': '', 'member_of': [],
+    f = {'op': 'rp_list', 'v': v, 'name': '', 'has_name': False, 'uuid': '', 'in_tree': '', 'member_of': [],
          'forbidden_aggs': {}, 'required': [], 'forbidden': {}, 'resources': {}}
     if 'name' in by:
         _need(len(by['name']) == 1 and by['name'][0].isascii())
         f['name'] = by['name'][0]
+        f['has_name'] = True
     if 'uuid' in by:
         _need(len(by['uuid']) == 1)
         f['uuid'] = _uuid(by['uuid'][0])
